@@ -51,6 +51,39 @@ def evaluate_graph(refs, fail, entry, mode=0, via_range=False, long_pad=False, s
     return sandbox.run_timed(fn)
 
 
+def live_cyclic(refs, fail, entry):
+    """is a cycle reachable from entry by a walk that stops at failing cells (XlEvalMachine!CyclicLive)"""
+    live, todo = set(), [entry]
+    while todo:
+        c = todo.pop()
+        if c in live:
+            continue
+        live.add(c)
+        if not fail[c - 1]:
+            todo.extend(refs[c - 1])
+    for c in live:
+        if fail[c - 1]:
+            continue
+        seen, todo = set(), list(refs[c - 1])
+        while todo:
+            d = todo.pop()
+            if d == c:
+                return True
+            if d in seen or d not in live:
+                continue
+            seen.add(d)
+            if not fail[d - 1]:
+                todo.extend(refs[d - 1])
+    return False
+
+
+def outcome_ok(refs, fail, entry, exp, val, obs):
+    if obs['outcome'] == exp and (exp != 'value' or obs.get('val') == val):
+        return True
+    # a failing cell AND a cycle both reachable: either report is right (which is met first depends on evaluation order)
+    return exp in ('cycle', 'error') and obs['outcome'] in ('cycle', 'error') and any(fail) and live_cyclic(refs, fail, entry)
+
+
 def graph_worker(blocks):
     out = {'n': 0, 'dis': [], 'samples': [], 'outcomes': {}}
     for b in blocks:
@@ -60,9 +93,7 @@ def graph_worker(blocks):
         obs = evaluate_graph(refs, fail, entry, mode=h % 2, via_range=(h >> 1) % 2 == 0, long_pad=(h >> 2) % 8 == 0)
         out['n'] += 1
         out['outcomes'][exp] = out['outcomes'].get(exp, 0) + 1
-        anyfail = any(fail)
-        ok = (obs['outcome'] == exp and (exp != 'value' or obs.get('val') == val)) or \
-             (anyfail and exp in ('cycle', 'error') and obs['outcome'] in ('cycle', 'error'))
+        ok = outcome_ok(refs, fail, entry, exp, val, obs)
         if len(out['samples']) < 2 and exp != 'value':
             out['samples'].append({'refs': refs, 'fail': fail, 'entry': entry, 'expected': exp, 'observed': {k: obs[k] for k in obs if k != 'abs'}})
         if not ok:
@@ -90,8 +121,7 @@ def shared_worker(groups):
                 exp, val = entries[entry]
                 obs = evaluate_graph(refs, fail, entry, mode=h % 2, via_range=(h >> 1) % 2 == 0, shared=shared)
                 out['n'] += 1
-                ok = (obs['outcome'] == exp and (exp != 'value' or obs.get('val') == val)) or \
-                     (any(fail) and exp in ('cycle', 'error') and obs['outcome'] in ('cycle', 'error'))
+                ok = outcome_ok(refs, fail, entry, exp, val, obs)
                 if not ok:
                     out['dis'].append({'case': {'refs': refs, 'fail': fail, 'entry': entry, 'evaluated_before_by_same_evaluator': seq[:seq.index(entry)]},
                                        'exp': {'outcome': exp, 'val': val}, 'obs': {k: obs[k] for k in obs if k != 'abs'},
